@@ -51,6 +51,9 @@ def plan(tier, seed):
     specs = [{"part": "roundtrip", "shard": i, "of": n} for i in range(n)]
     specs += [{"part": "order", "shard": i, "of": n} for i in range(n)]
     specs.append({"part": "tags"})
+    if tier == "thorough":
+        # set iteration order (which depends on string hashing) decides the order in which links are written: second seed
+        specs += [dict(x, hashseed=1) for x in list(specs)]
     return specs
 
 
